@@ -4,7 +4,7 @@
    transcription of queue<T> (QueueDefs.q_step) resp. queue<void> (vq_step).  `q_final ops` is the state after the history,
    `q_good pv q done` is the invariant every destruction-free history establishes (q_good_run); histories containing a
    destroy are covered by c09_destroy_cancels + c09_dead_rejects (after destruction every op is rejected). *)
-From Cocls Require Import Base BaseProofs QueueDefs QueueProofs QueueConcProofs QueueOrderProofs.
+From Cocls Require Import Base BaseProofs QueueDefs QueueProofs QueueConcProofs QueueOrderProofs QueueOracleProofs.
 Local Open Scope Z_scope.
 
 (* sequential refinement: every observation of the code-shaped model is the observation of the FIFO specification
@@ -95,16 +95,36 @@ Theorem c09_void_oracle_accepts_model : forall ops, vq_oracle ops (vq_run ops) =
 Proof. exact vq_oracle_accepts_model. Qed.
 Print Assumptions c09_void_oracle_accepts_model.
 
-(* ---- interleaving model (queue<T>): ANY number of producer / consumer / unblock_pop threads, ANY schedule of ANY length.
+(* callback consumers (call_fn_future_awaiter whose completion callback asks for the next item from inside the callback):
+   because the promise is resolved after the critical section, the nested pop() is an ordinary pop; every such history
+   reaches a state that a plain history with the same pushes reaches, so conservation and order carry over *)
+Theorem c09_callback_reaches_plain_state : forall l, c_no_destroy l ->
+  exists ops, cbase (cq_final l) = q_final ops /\ no_destroy ops /\ pushed_vals ops = c_pushed_vals l.
+Proof. exact cq_reaches_plain_state. Qed.
+Print Assumptions c09_callback_reaches_plain_state.
+
+Theorem c09_callback_conservation_order : forall l, c_no_destroy l ->
+  c_pushed_vals l = delivered (futs (cbase (cq_final l))) ++ items (cbase (cq_final l)) /\
+  (items (cbase (cq_final l)) = [] \/ waiters (cbase (cq_final l)) = []).
+Proof. exact cq_conservation_order. Qed.
+Print Assumptions c09_callback_conservation_order.
+
+Example c09_callback_nonvacuous :
+  let l := [COp (QPush 11); CPopCb 3; COp (QPush 12); COp (QPush 13); COp (QUnblockPop 7); COp (QPush 14)] in
+  futs (cbase (cq_final l)) = [FValue 11; FValue 12; FValue 13; FExc 7] /\ items (cbase (cq_final l)) = [14].
+Proof. vm_compute. split; reflexivity. Qed.
+
+(* ---- interleaving model (queue<T>): ANY number of producer / consumer / unblock_pop / unblock_push / size threads and a destroyer thread, ANY schedule of ANY length.
    A push or pop is a critical section followed, after the unlock, by a separate step that resolves the promise taken
    inside (QueueDefs.tstep).  In every reachable state the items pushed so far (every producer's first k values, tagged
    with producer and index, hence pairwise distinct: NoDup) are exactly, as a multiset, the items received by pops + the
-   items in flight between a critical section and its resolution + the queued items + the items held by blocked pushes;
+   items in flight between a critical section and its resolution + the queued items + the items held by blocked pushes +
+   the items withdrawn by unblock_push + the items destroyed with the queue;
    and items / waiting consumers are never both non-empty. ---- *)
 Theorem c09_conc_conservation : forall thrs s, Forall t_fresh thrs -> t_reachable None thrs s ->
   NoDup (t_plog s) /\
   Permutation (t_plog s)
-    (map snd (ritems (t_rlog s)) ++ map snd (iitems (t_infl s)) ++ t_items s ++ map fst (t_blocked s)) /\
+    (map snd (ritems (t_rlog s)) ++ map snd (iitems (t_infl s)) ++ t_items s ++ map fst (t_blocked s) ++ t_wlog s ++ t_dlog s) /\
   (forall p, filter (of_p p) (t_plog s) = expected_plog p (nth_error (t_thr s) p)) /\
   (t_items s = [] \/ t_waiters s = []).
 Proof. intros thrs s. exact (tq_conservation None thrs s I). Qed.
@@ -117,19 +137,28 @@ Theorem c09_conc_per_producer_order : forall thrs s c p, Forall t_fresh thrs -> 
 Proof. intros thrs s c p. exact (tq_per_producer_order None thrs s c p I). Qed.
 Print Assumptions c09_conc_per_producer_order.
 
-(* items are matched to pops in critical-section order, which is a prefix of the push order; what a consumer has
-   received plus what is in flight for it is exactly its share of that matching, in order (single consumer: FIFO) *)
-Theorem c09_conc_assignment_prefix : forall thrs s, Forall t_fresh thrs -> t_reachable None thrs s ->
-  t_plog s = map snd (t_alog s) ++ t_items s ++ map fst (t_blocked s) /\
+(* items are matched to pops in critical-section order; matched ++ queued ++ held-by-blocked is, producer by producer, in
+   push order (nothing overtakes, also not while producers are blocked); what a consumer has received plus what is in
+   flight for it is exactly its share of the matching, in order (single consumer: FIFO) *)
+Theorem c09_conc_assignment_in_push_order : forall thrs s, Forall t_fresh thrs -> t_reachable None thrs s ->
+  (forall p, Sorted.StronglySorted lt (map it_k (filter (of_p p) (map snd (t_alog s) ++ t_items s ++ map fst (t_blocked s))))) /\
   forall c, map snd (filter (is_c c) (t_alog s)) = got c s ++ map snd (filter (is_c c) (iitems (t_infl s))).
-Proof. intros thrs s. exact (tq_assignment_is_push_prefix None thrs s I). Qed.
-Print Assumptions c09_conc_assignment_prefix.
+Proof. intros thrs s. exact (tq_assignment_in_push_order None thrs s I). Qed.
+Print Assumptions c09_conc_assignment_in_push_order.
+
+(* the oracle that is run on the implementation's controlled-thread traces (replay of the critical sections on the atomic
+   thread-level FIFO, QueueDefs.tq_oracle) accepts every trace the model itself produces: every case file, any threads
+   (fewer than 777, the marker of the deadlock line), any schedule *)
+Theorem c09_thread_oracle_accepts_model : forall ops,
+  (length (flat_map (t_decode_thr false) ops) < 777)%nat -> tq_oracle false ops (tq_run false ops) = true.
+Proof. exact (tq_oracle_accepts_model false). Qed.
+Print Assumptions c09_thread_oracle_accepts_model.
 
 Example c09_conc_nonvacuous :
-  let thrs := flat_map t_decode_thr [[1; 101; 102]; [1; 201]; [2; 2]; [2; 1]]%Z in
-  let s := fst (t_run_sched 40 (t_init None thrs) [2; 2; 0; 1; 0; 0; 1; 1; 0; 0]%Z []) in
+  let thrs := flat_map (t_decode_thr false) [[1; 101; 102]; [1; 201]; [2; 2]; [2; 1]]%Z in
+  let s := fst (t_run_sched 60 (t_init None thrs) [2; 2; 0; 1; 0; 0; 1; 1; 0; 0]%Z []) in
   Forall t_fresh thrs /\ t_reachable None thrs s /\
-  map it_v (got 2 s) = [101; 102]%Z /\ map it_v (got 3 s) = [201]%Z /\ t_infl s = [] /\ t_items s = [].
+  map it_v (got 2 s) = [101; 201]%Z /\ map it_v (got 3 s) = [102]%Z /\ t_infl s = [] /\ t_items s = [].
 Proof. split; [apply t_decode_fresh|]. split; [eexists; eexists; eexists; reflexivity|]. vm_compute. repeat split. Qed.
 
 (* non-vacuity: three pops wait, unblock_pop fails the oldest, two pushes serve the next two in order, a third is queued *)
